@@ -906,7 +906,7 @@ func TestVerifC12(t *testing.T) {
 	for _, c := range cfgs {
 		cx.cfgs[c.Name] = c
 	}
-	required := []string{"import_cases", "export_cases", "triples", "same_policy_pairs", "policies_treat_routes_differently",
+	required := []string{"conc_executions", "conc_nonempty_result", "import_cases", "export_cases", "triples", "same_policy_pairs", "policies_treat_routes_differently",
 		"replacement_must_change_tables_import", "replacement_must_change_tables_export",
 		"variant:" + zvC12Live, "variant:" + zvC12DownFirst, "variant:" + zvC12Bounce, "variant:" + zvC12DownBetween}
 	for _, c := range cfgs {
@@ -920,11 +920,21 @@ func TestVerifC12(t *testing.T) {
 		"(establish with old, routes, replace) and, on one (quick) / all (thorough) route sets, the histories down-first / bounce / down-between; core pairs x %d further session configurations x 4 histories; "+
 		"all ordered triples of the core; every history run on the real bgpServer under the controlled scheduler (bound 0) and compared in 3 phases (after replacement, after re-announcing all routes, "+
 		"after withdrawing them) with the same history run with the final policy configured from the start; a case whose policy pair already fails in the plain 'live' history on the eBGP session is "+
-		"not run again in the other histories/configurations/triples (counted as skipped_consequence); non-trivial = the two policies treat some route of the set differently (their reference worlds differ)",
+		"not run again in the other histories/configurations/triples (counted as skipped_consequence); non-trivial = the two policies treat some route of the set differently (their reference worlds differ); "+
+		"plus every schedule (<= 2 preemptions, thorough 3) of AdjRIBOut.ReplaceFilterChain racing with Loc-RIB route changes (3 session kinds x 5 policy pairs x 3 change sets), compared with a fresh Adj-RIB-Out under the new policy",
 		len(lang), len(core), len(cfgs)-1))
 	r.Extra("language_size", len(lang))
 
 	if r.IsReplay() {
+		var cc zvC12ConcCase
+		r.ReplayCase(&cc)
+		if cc.Conc {
+			zvC12ConcRun(r, cc, append([]int{}, cc.Schedule...))
+			for _, n := range required {
+				r.Count(n, 1)
+			}
+			return
+		}
 		var c zvC12Case
 		r.ReplayCase(&c)
 		if _, ok := cx.cfgs[c.Config]; !ok {
@@ -1068,4 +1078,5 @@ func TestVerifC12(t *testing.T) {
 			cx.refs = map[string]zvC12Res{} // the reference worlds of this item are not needed again
 		}
 	}
+	zvC12Concurrent(r, idx)
 }
